@@ -87,4 +87,10 @@ CHECKS = {
            'shards': {'quick': 8, 'thorough': 16},
            'timeout': {'quick': 300, 'thorough': 3000}},
           {'pkg': 'c18link', 'run': 'TestPercentAllShort', 'optional': True, 'shards': {'quick': 8, 'thorough': 16}}]},
+    'C12': {'level': 'exploration',
+ 'assumptions': ['where a custom codec name makes one Content-Type belong to two protocols, which protocol wins is not asserted (only that the type is '
+                 'accepted and user code runs at most once)',
+                 'requests reach ServeHTTP directly with crafted method / version / headers'],
+ 'jobs': [{'pkg': 'c12', 'run': 'TestDispatch', 'checks': {'quick': 30000, 'thorough': 1200000}, 'shards': {'quick': 4, 'thorough': 16}},
+          {'pkg': 'c12', 'run': 'TestSpecAgreement', 'checks': {'quick': 6000, 'thorough': 200000}, 'shards': {'quick': 4, 'thorough': 16}}]},
 }
